@@ -67,7 +67,7 @@ def binop_hook(ex, st, op, a, b, node):
     return NotImplemented
 
 
-def wave_eval_config():
+def wave_eval_config(stage3=False):
     def setup(ex):
         st = State()
         for b in BACKGROUND:
@@ -114,7 +114,14 @@ def wave_eval_config():
                     z3.ForAll([i], z3.Implies(z3.And(1 <= i, i < n[k]), cb0[m + i] > TMIN_E)),
                     z3.Or(zmem + zcap <= m, m + cp <= zmem)]
         q = [z3.Int('_q%d' % j) for j in range(4)]
-        pre.append(z3.ForAll(q, z3.And(DFUN(*q) >= 0, DFUN(*q) <= DMAX)))
+        finite_delays = bool(ex.c.get('unroll'))      # bounded-refutation mode: explicit instances instead of quantifiers
+
+        def forall_delays(body):
+            """body(ds, line, p, q) for all delay entries"""
+            if not finite_delays:
+                return [z3.ForAll(q, body(*q))]
+            return [body(z3.IntVal(d_), z3.IntVal(l_), z3.IntVal(p_), z3.IntVal(q_)) for d_ in range(2) for l_ in range(6) for p_ in range(2) for q_ in range(2)]
+        pre += forall_delays(lambda d_, l_, p_, q_: z3.And(DFUN(d_, l_, p_, q_) >= 0, DFUN(d_, l_, p_, q_) <= DMAX))
         # delay dataset selection modes: the requires fix the range of the explicitly selected dataset
         sc = st.heap['simctl_int']
         pre.append(z3.Implies(z3.And(ndel.e > 1, sc[1] == 0), z3.And(seed.e >= 0, seed.e < ndel.e)))
@@ -126,6 +133,23 @@ def wave_eval_config():
         xs = z3.Int('_x')
         pre.append(z3.ForAll([xs], SHR(xs, 0) == xs))
         pre.append(SHR(lut, 0) == lut)
+        if stage3:
+            # (a) one-op static-timing step: every finite operand entry plus any of its line's delays lies in [LO, HI]
+            LO, HI = z3.Real('LO'), z3.Real('HI')
+            ex.g['LO'], ex.g['HI'] = LO, HI
+            DLO, DHI = z3.Function('DLO', z3.IntSort(), z3.RealSort()), z3.Function('DHI', z3.IntSort(), z3.RealSort())
+            pre += forall_delays(lambda d_, l_, p_, q_: z3.And(DLO(l_) <= DFUN(d_, l_, p_, q_), DFUN(d_, l_, p_, q_) <= DHI(l_)))
+            for k in 'abcd':
+                m = locs[X[k]]
+                emin, emax = z3.Real('EMIN_' + k), z3.Real('EMAX_' + k)
+                pre.append(z3.ForAll([i], z3.Implies(z3.And(0 <= i, i < n[k], cb0[m + i] > TMIN_E), z3.And(emin <= cb0[m + i], cb0[m + i] <= emax))))
+                pre.append(z3.And(LO <= emin + DLO(X[k]), emax + DHI(X[k]) <= HI))
+            # (b) polarity-independent delays and strictly increasing operand waveforms (for the monotonicity clause)
+            DX = z3.Function('DX', z3.IntSort(), z3.IntSort(), z3.RealSort())
+            pre += forall_delays(lambda d_, l_, p_, q_: DFUN(d_, l_, p_, q_) == DX(d_, l_))
+            for k in 'abcd':
+                m = locs[X[k]]
+                pre.append(z3.ForAll([i], z3.Implies(z3.And(0 <= i, i + 1 < n[k]), cb0[m + i] < cb0[m + i + 1])))
         for c in pre:
             st.assume(SBool(c))
         st.env.update(op=op, cbuf=cbuf, c_locs=c_locs, c_caps=c_caps, sim=sim, delays=Delays4(ndel), simctl_int=simctl, seed=seed)
@@ -173,6 +197,14 @@ def wave_eval_config():
                                                                         z3.And(zc >= 1, cb[zmem] == TMIN_E, z3.Implies(zc == 1, prev == TMIN_E)))))
         out.append(('K2:an initial 0 stays 0', z3.Implies(z3.And(allinit, B0 == 0, zc >= 1), cb[zmem] > TMIN_E)))
         out.append(('J10:overflows >= 0', to_int(e['overflows']) >= 0))
+        if stage3:
+            out.append(('W1:every stored finite entry lies in the static-timing window [LO, HI]',
+                        z3.ForAll([i], z3.Implies(z3.And(0 <= i, i < zc, cb[zmem + i] > TMIN_E), z3.And(g['LO'] <= cb[zmem + i], cb[zmem + i] <= g['HI'])))))
+            out.append(('N2:previous_t is not before the last kept entry', z3.Implies(zc >= 1, prev >= cb[zmem + zc - 1])))
+            out.append(('N3:stored time stamps strictly increase', z3.ForAll([i], z3.Implies(z3.And(1 <= i, i < zc), cb[zmem + i - 1] < cb[zmem + i]))))
+        if stage3:
+            # the stage-1/2 clauses are proved by the configuration 'stages 1+2' under weaker requires: assumed here ('~')
+            out = [(a if a[:2] in ('W1', 'N2', 'N3') else '~' + a, b) for a, b in out]
         return [(a, SBool(b) if not isinstance(b, bool) else SBool(z3.BoolVal(b))) for a, b in out]
 
     def variant(ex, s):
@@ -206,6 +238,12 @@ def wave_eval_config():
                ('Q6b:without own overflow the terminator is the max of the operand terminators',
                 z3.Implies(to_int(e['overflows']) == 0, cb[zmem + zc] == mx)),
                ('Q7:TMIN occurs only at index 0 of the output', z3.ForAll([i], z3.Implies(z3.And(1 <= i, i < zc), cb[zmem + i] > TMIN_E)))]
+        if stage3:
+            res = [('~' + a, b) for a, b in res] + [
+                ('Q8:every finite output entry lies in the static-timing window of the operands (one-op STA step)',
+                 z3.ForAll([i], z3.Implies(z3.And(0 <= i, i < zc, cb[zmem + i] > TMIN_E), z3.And(g['LO'] <= cb[zmem + i], cb[zmem + i] <= g['HI'])))),
+                ('Q9:with polarity-independent delays the output time stamps strictly increase',
+                 z3.ForAll([i], z3.Implies(z3.And(1 <= i, i < zc), cb[zmem + i - 1] < cb[zmem + i])))]
         for nm, c in res:
             yield nm, SBool(c)
         # vacuity guard with a pinned witness shape (makes the sat answer cheap): a BUF1 of a constant-1 waveform
@@ -221,9 +259,182 @@ def wave_eval_config():
                                                                            'current_t': 'time', 'previous_t': 'time'},
                               'modifies': ['cbuf']}},
                 'const_hook_factory': hook_factory}
-    return Config('stages 1+2', contract, setup, None)
+    cfg = Config('stage 3: timing window + monotone stamps' if stage3 else 'stages 1+2', contract, setup, None)
+    cfg.bmc = lambda: wave_eval_bmc_config(stage3)
+    cfg.bmc_domain = (-1, 8)
+    cfg.fuzz = lambda: fuzz_wave_eval(stage3)
+    return cfg
 
 
-def targets():
-    return [Target('wave_sim', '_wave_eval', [wave_eval_config()], kinds={'time': lambda n: STime(z3.Real(n))}, instantiate='always',
+def targets(stage3=False):
+    return [Target('wave_sim', '_wave_eval', [wave_eval_config(stage3)], kinds={'time': lambda n: STime(z3.Real(n))}, instantiate='always',
                    note='the one body behind wave_eval_cpu and _wave_eval_gpu')]
+
+
+# ------------------------------------------------------------------------------------------------------------------
+# Bounded refutation of _wave_eval (used only when an obligation is undecided, or refuted without a replayable model):
+# the while loop is unrolled (operands with at most 2 entries, <= 9 iterations), quantifiers are expanded over a small
+# index domain, and a model of (requires and not postcondition) is replayed on the real function.  A candidate that does
+# not fail on the real code is discarded.
+def wave_eval_bmc_config(stage3=False):
+    base = wave_eval_config(stage3)
+
+    def setup(ex):
+        st = base.setup(ex)
+        g = ex.g
+        locs, caps, X, n = g['locs'], g['caps'], g['X'], g['n']
+        nlocs = to_int(st.env['__nlocs__'])
+        sc_ = st.heap['simctl_int']
+        extra = [sc_[1] >= 0, sc_[1] <= 2, sc_[0] >= 0, sc_[0] <= 3, st.env['seed'].e >= 0, st.env['seed'].e <= 3, nlocs <= 6, g['c_len'].e <= 30, to_int(g['ndel']) <= 2, g['zcap'] <= 6, g['sim'].e == 0, g['DMAX'] <= 16,
+                 TMIN_E == -1000, TMAX_E == 1000, TMAX_OVL_E == 1100, HUGE == 5000]
+        for k in 'abcd':
+            extra += [n[k] <= 2, caps[X[k]] <= 4, caps[X[k]] >= 1]
+        for c in extra:
+            st.assume(SBool(c))
+        return st
+    contract = dict(base.contract)
+    contract['unroll'] = {1: 9}
+    contract['merge_ifs'] = True
+
+    def replay(model, obl, ex):
+        g = ex.g
+        ev = lambda e: model.eval(e, model_completion=True)
+        num = lambda e: float(ev(e).as_fraction()) if z3.is_rational_value(ev(e)) or z3.is_int_value(ev(e)) else None
+        st0 = ex.st0
+        nlocs, c_len, ndel = ev(to_int(st0.env['__nlocs__'])).as_long(), ev(g['c_len'].e).as_long(), ev(to_int(g['ndel'])).as_long()
+        if not (0 < nlocs <= 6 and 0 < c_len <= 30 and 1 <= ndel <= 2):
+            return None
+        op = [ev(o.e).as_long() for o in st0.env['op']]
+        locs = [ev(g['locs'][i]).as_long() for i in range(nlocs)]
+        caps = [ev(g['caps'][i]).as_long() for i in range(nlocs)]
+        cb = [num(g['cb0'][i]) for i in range(c_len)]
+        delays = [[[[num(DFUN(z3.IntVal(d), z3.IntVal(l), z3.IntVal(p), z3.IntVal(q))) for q in range(2)] for p in range(2)] for l in range(nlocs)] for d in range(ndel)]
+        simctl = [ev(st0.heap['simctl_int'][i]).as_long() for i in range(2)]
+        seed = ev(st0.env['seed'].e).as_long()
+        return 'contracts.wave_c:run_wave_eval', {'op': op, 'c_locs': locs, 'c_caps': caps, 'cbuf': cb, 'delays': delays, 'simctl_int': simctl, 'seed': seed,
+                                                  'stage3': stage3, 'sentinels': [-1000, 1000, 1100]}
+    return Config(base.name + ' [bounded unrolling]', contract, setup, replay)
+
+
+def run_wave_eval(args):
+    """replay on the real code: one call of kyupy.wave_sim._wave_eval on concrete arrays, postcondition evaluated concretely"""
+    import numpy as np
+    from kyupy import wave_sim as W
+    tmin, tmax, tovl = args['sentinels']
+
+    def tv(v):
+        if v <= tmin:
+            return W.TMIN
+        if v >= tovl:
+            return W.TMAX_OVL
+        if v >= tmax:
+            return W.TMAX
+        return np.float32(v)
+    op = np.array(args['op'], dtype=np.int32)
+    c_locs, c_caps = np.array(args['c_locs'], dtype=np.int32), np.array(args['c_caps'], dtype=np.int32)
+    cbuf = np.array([[tv(v)] for v in args['cbuf']], dtype=np.float32)
+    delays = np.array(args['delays'], dtype=np.float64)
+    simctl = np.array(args['simctl_int'], dtype=np.int64)
+    c0 = cbuf.copy()
+    lut, z, xs = int(op[0]), int(op[1]), [int(v) for v in op[2:6]]
+
+    def wave(mem, loc, cap):
+        w = mem[loc:loc + cap, 0]
+        for k, t in enumerate(w):
+            if t >= W.TMAX:
+                return [float(x) for x in w[:k]], float(t)
+        return None
+    ops_w = [wave(c0, c_locs[x], c_caps[x]) for x in xs]
+    if any(w is None for w in ops_w):
+        return {'reproduced': False, 'note': 'model operands are not well formed after rounding to float32'}
+    try:
+        nrise, nfall = W._wave_eval(op, cbuf, c_locs, c_caps, 0, delays, simctl, args['seed'])
+    except Exception as e:  # noqa
+        return {'reproduced': True, 'observed': repr(e)}
+    bad = []
+    zl, zc = int(c_locs[z]), int(c_caps[z])
+    out = wave(cbuf, zl, zc)
+    mask = np.ones(len(cbuf), dtype=bool)
+    mask[zl:zl + zc] = False
+    if not np.array_equal(cbuf[mask], c0[mask]):
+        bad.append('Q3 frame: memory outside the own output region changed')
+    if out is None:
+        bad.append('Q1: no terminator inside the output capacity')
+    else:
+        ent, term = out
+        fin = sum((len(w[0]) & 1) << j for j, w in enumerate(ops_w))
+        ini = sum((1 if (w[0] and w[0][0] <= W.TMIN) else 0) << j for j, w in enumerate(ops_w))
+        if (len(ent) & 1) != ((lut >> fin) & 1):
+            bad.append(f'Q2: final parity {len(ent) & 1} != LUT[{fin}] = {(lut >> fin) & 1}; output {ent}')
+        if (1 if (ent and ent[0] <= W.TMIN) else 0) != ((lut >> ini) & 1):
+            bad.append(f'Q5: initial value != LUT[{ini}]; output {ent}')
+        if any(t <= W.TMIN for t in ent[1:]):
+            bad.append('Q7: TMIN after index 0')
+        if int(nfall) != len(ent) // 2 or int(nrise) != max(0, (len(ent) + 1) // 2 - (1 if (ent and ent[0] == W.TMIN) else 0)):
+            bad.append(f'Q4: counts ({nrise},{nfall}) do not match the output waveform {ent}')
+        finite = [t for t in ent if t > W.TMIN]
+        if args.get('stage3'):
+            lo, hi = None, None
+            for x, w in zip(xs, ops_w):
+                for t in w[0]:
+                    if t > W.TMIN:
+                        a, b_ = t + float(delays[:, x].min()), t + float(delays[:, x].max())
+                        lo = a if lo is None else min(lo, a)
+                        hi = b_ if hi is None else max(hi, b_)
+            if finite and (lo is None or min(finite) < np.float32(lo) or max(finite) > np.float32(hi)):
+                bad.append(f'Q8: output entries {finite} outside the static-timing window [{lo}, {hi}]')
+            indep = all(len(set(np.asarray(delays[:, x]).ravel().tolist())) == 1 for x in set(xs))
+            incr = all(all(a < b_ for a, b_ in zip(w[0], w[0][1:])) for w in ops_w)
+            if indep and incr and any(a >= b_ for a, b_ in zip(finite, finite[1:])):
+                bad.append(f'Q9: time stamps not strictly increasing with polarity-independent delays: {finite}')
+    return {'reproduced': bool(bad), 'violated': bad, 'output': None if out is None else out[0], 'operands': [w[0] for w in ops_w]}
+
+
+def fuzz_wave_eval(stage3, trials=40000, seed=1):
+    """bounded stand-in of the same function: the contract of _wave_eval evaluated concretely on the real function over random
+    small inputs that satisfy the requires (entries and delays on a small integer grid so that coincidences are frequent).
+    -> (runner, args, result) of the first failing input, or None"""
+    import random
+    rng = random.Random(seed)
+    luts = [0x6666, 0x9696, 0x6996, 0x8888, 0xEEEE, 0x8000, 0xFFFE, 0xCACA, 0x7777, 0xAAAA, 0x5555, 0xF888, 0xE0E0]
+    for _ in range(trials):
+        lut = rng.choice(luts) if rng.random() < 0.8 else rng.randrange(1 << 16)
+        k = rng.randrange(1, 5)
+        waves = []
+        for j in range(4):
+            if j >= k:
+                waves.append([])
+                continue
+            n = rng.randrange(0, 4)
+            ts = sorted(rng.sample(range(0, 10), n))
+            w = ([-1000] if rng.random() < 0.4 else []) + [float(t) for t in ts]
+            waves.append(w[:3])
+        # memory layout: zero slot 0 (cap 4), operands, output
+        c_locs, c_caps, cbuf = [0], [4], [1000.0] * 4
+        xs = []
+        for j in range(4):
+            if j >= k:
+                xs.append(0)
+                continue
+            loc = len(cbuf)
+            cap = 4
+            cbuf += waves[j] + [1000.0] * (cap - len(waves[j]))
+            c_locs.append(loc)
+            c_caps.append(cap)
+            xs.append(len(c_locs) - 1)
+        zcap = rng.choice([4, 4, 8])
+        c_locs.append(len(cbuf))
+        c_caps.append(zcap)
+        cbuf += [float(rng.randrange(0, 9)) for _ in range(zcap)] + [7.0]
+        z = len(c_locs) - 1
+        nl = len(c_locs)
+        if stage3 or rng.random() < 0.5:
+            delays = [[[[float(d)] * 2] * 2 for d in [rng.choice([0, 0, 1, 2, 3, 4]) for _ in range(nl)]]]
+        else:
+            delays = [[[[float(rng.choice([0, 1, 2, 3])) for _ in range(2)] for _ in range(2)] for _ in range(nl)]]
+        args = {'op': [lut, z] + xs + [0, 0, 0], 'c_locs': c_locs, 'c_caps': c_caps, 'cbuf': cbuf, 'delays': delays, 'simctl_int': [0, 0], 'seed': 0,
+                'stage3': True, 'sentinels': [-1000, 1000, 1100]}
+        r = run_wave_eval(args)
+        if r.get('reproduced'):
+            return 'contracts.wave_c:run_wave_eval', args, r
+    return None
